@@ -4,6 +4,6 @@ P="$1"; ID="$2"; TIER="${3:-quick}"
 cd /repo || exit 2
 if ! git apply --check "$P" 2>/dev/null; then echo "PATCH-DOES-NOT-APPLY $P"; exit 3; fi
 git apply "$P"
-cd /verif && ./check "$ID" --tier "$TIER" 2>&1 | grep -E "^VIOLATION|^KNOWN|^MACHINERY|tier=" | cut -c1-400 | head -6
+cd /verif && ./check "$ID" --tier "$TIER" 2>&1 | grep -E "^VIOLATION|^MACHINERY|tier=" | cut -c1-400 | head -6
 git -C /repo checkout -- . 
 git -C /repo status --short | grep -v '^??' | head
